@@ -128,6 +128,30 @@ def runtime_value(fn, key):
         return 'raised', repr(ex)
 
 
+def runtime_value_kw(fn, key, form):
+    """The same request written with parameter names (form 'kw': all named; 'mixed': first positional, rest named; names taken
+    from the function's own signature).  Returns ('skip', why) when the signature does not offer that form."""
+    import inspect
+    import src.quadrature_rules as qr
+    f = getattr(qr, fn)
+    try:
+        ps = [p_ for p_ in inspect.signature(f).parameters.values()]
+    except (TypeError, ValueError) as ex:
+        return 'skip', repr(ex)
+    args = key if isinstance(key, tuple) else (key, )
+    if len(ps) != len(args) or any(p_.kind != p_.POSITIONAL_OR_KEYWORD for p_ in ps):
+        return 'skip', 'signature {}'.format([str(p_) for p_ in ps])
+    npos = 0 if form == 'kw' else 1
+    if form == 'mixed' and len(args) < 2:
+        return 'skip', 'one parameter'
+    try:
+        return 'value', f(*args[:npos], **{p_.name: a_ for p_, a_ in list(zip(ps, args))[npos:]})
+    except AssertionError as ex:
+        return 'assert', repr(ex)
+    except Exception as ex:  # noqa
+        return 'raised', repr(ex)
+
+
 def same_as_entry(val, e):
     import numpy as np
     try:
@@ -216,6 +240,28 @@ def run(ctx):
         if not same_as_entry(val, e):
             raise common.HarnessError('{}({}): run-time value differs from the parsed source literals'.format(fn, key))
         n_returned += 1
+
+    # -- request forms: the same key written with parameter names (all named / first positional) - every key of every table in
+    # table order, then every key again in reverse order; whichever way a key is written, the rule returned is its table entry
+    n_forms = 0
+    forms_skipped = {}
+    for pass_, seq in (('table order', order), ('reverse order', order[::-1])):
+        for (fn, key) in seq:
+            e = entries[(fn, key)]
+            if not e.returned:
+                continue
+            for form in ('kw', 'mixed'):
+                status, val = runtime_value_kw(fn, key, form)
+                if status == 'skip':
+                    forms_skipped[fn + ':' + form] = val
+                    continue
+                evaluations += 1
+                n_forms += 1
+                if status != 'value' or val is None or not same_as_entry(val, e):
+                    ctx.violation(dict(vkey(fn, key, 'request-form'), form=form),
+                                  '{}({}) requested by parameter name ({}, {}) does not return its table entry: {}'.format(
+                                      fn, key, form, pass_, 'another rule / None' if status == 'value' else status + ' ' + str(val)[:80]),
+                                  {'kind': 'request-form', 'rule': fn, 'key': key, 'form': form})
 
     # -- moments / structure (parallel over entries)
     items = [(fn, key, entries[(fn, key)].nodes, entries[(fn, key)].weights) for (fn, key) in order]
@@ -375,7 +421,7 @@ def run(ctx):
                 'the four exported lists and every (constructor, requested degree) that reaches a present key; distinct = '
                 'distinct (family, key, function) / (list, pair) / (constructor, degree) tuples, all non-trivial '
                 '(non-zero exact moment)',
-        'samples': samples, 'exhaustive': True, 'table_entries': len(order), 'entries_returned_and_matching_runtime': n_returned,
+        'samples': samples, 'exhaustive': True, 'table_entries': len(order), 'entries_returned_and_matching_runtime': n_returned, 'requests_by_parameter_name': n_forms, 'request_forms_not_offered_by_signature': forms_skipped,
         'unreachable_duplicate_branches': len(dead), 'per_family': counts, 'exported_list_pairs': list_counts,
         'constructor_cases': ctor_counts, 'worst_relative_error_upper_bounds': worst,
         'table_keys_not_in_exported_lists': unlisted, 'entries_with_empty_advertised_class': empty_class,
